@@ -191,7 +191,7 @@ def c16_plan(run, replay=None):
     if not replay:
         run.floor("messages", run.counters.get("messages", 0), 3000)
         run.floor("origin_times", run.counters.get("origin_times", 0), 12000 if q else 600000)
-        run.floor("conflict_free_after_prepass", run.counters.get("conflict_free_after_prepass", 0), 2500)
+        run.floor("conflict_free_after_prepass", run.counters.get("conflict_free_after_prepass", 0), 2000)
     run.counters["distinct_nontrivial"] = run.counters.get("messages", 0)
     return run.finish(
         "messages mixing NYCT-extended and plain entities x the 4 option combinations (exhaustive pools for the stale "
